@@ -107,7 +107,7 @@ def run_case(ctx, case):
     model = case["model"]
     if case.get("sbprovider"):
         from checks.c03_idpurity import with_sandbox_provider
-        model = with_sandbox_provider(model)
+        model = with_sandbox_provider(model, case["sbprovider"])
     if case.get("fold"):
         names = [r["name"] for r in model["recipes"][1:]]
         mapping = {}
@@ -268,7 +268,7 @@ def case_st(quick):
         "isolate": st.sampled_from([None, None, "r[12]", ".*-a", "r0", "lib"]),
         "sandboxmode": st.sampled_from([True, False, "slim", "dev", "strict"]),
         "short": st.booleans(),
-        "sbprovider": st.booleans(),
+        "sbprovider": st.sampled_from([False, True, 1, 2, 3]),
         "fold": st.one_of(st.none(), st.none(), st.lists(I, min_size=2, max_size=3, unique=True)),
     })
 
